@@ -55,5 +55,8 @@ VARIANTS = [
             [("R-ORDER.junk-first", "topicosvg")]),
     Variant("metadata no longer removed", [Edit(_S, "SVG.remove_title_meta_desc", '("title", "desc", "metadata", "comment")', '("title", "desc", "comment")')], [("R-ORDER.junk-first", "topicosvg")]),
     Variant("only root-level symbols", [Edit(_S, "SVG.remove_anonymous_symbols", '"//svg:symbol[not(@id)]"', '"/svg:svg/svg:symbol[not(@id)]"')], [("R-ORDER.junk-first", "topicosvg")], allow_analysis_error=True),
+    Variant("anonymous symbols with an id inside are kept", [Edit(_S, "SVG.remove_anonymous_symbols", '"//svg:symbol[not(@id)]"', '"//svg:symbol[not(@id) and not(.//@id)]"')], [("R-ORDER.junk-first", "topicosvg")]),
+    Variant("namespace walk skipped when the root declares nothing foreign", [Edit(_S, "SVG.remove_nonsvg_content", "        self._update_etree()\n", "        self._update_etree()\n        if all(v in (svgns(), xlinkns()) for v in self.svg_root.nsmap.values()):\n            return self\n")],
+            [("R-ORDER.junk-first", "topicosvg")]),
     Variant("silent: swap two removers", [Edit(_S, "SVG.topicosvg", "        self.remove_nonsvg_content(inplace=True)\n        self.remove_processing_instructions(inplace=True)\n", "        self.remove_processing_instructions(inplace=True)\n        self.remove_nonsvg_content(inplace=True)\n")], silent=True),
 ]
